@@ -291,11 +291,17 @@ pub struct Out {
     pub assets: Option<Assets>,
     pub datum: Datum,
     pub form: OutForm,
+    /// reference script (map form only): (language tag 1/2/3, script bytes)
+    pub script_ref: Option<(u8, Vec<u8>)>,
 }
 
 impl Out {
+    pub fn with_script_ref(mut self, lang_tag: u8, script: Vec<u8>) -> Out {
+        self.script_ref = Some((lang_tag, script));
+        self
+    }
     pub fn new(era: Era, addr: Addr, coin: u64) -> Out {
-        Out { addr, coin: Coin::Fixed(coin), assets: None, datum: Datum::None, form: if era.map_outputs() { OutForm::Map } else { OutForm::Legacy } }
+        Out { addr, coin: Coin::Fixed(coin), assets: None, datum: Datum::None, form: if era.map_outputs() { OutForm::Map } else { OutForm::Legacy }, script_ref: None }
     }
     pub fn change(era: Era, addr: Addr) -> Out {
         Out { coin: Coin::Change, ..Out::new(era, addr, 0) }
@@ -341,6 +347,10 @@ impl Out {
                     Datum::RawHash(h) => v.push((Node::uint(2), Node::array(vec![Node::uint(0), Node::bytes(h)]))),
                     Datum::Inline(d) => v.push((Node::uint(2), Node::array(vec![Node::uint(1), Node::tag(24, Node::bytes(&d.bytes()))]))),
                     Datum::None => {}
+                }
+                if let Some((tag, script)) = &self.script_ref {
+                    let inner = Node::array(vec![Node::uint(*tag as u64), Node::bytes(script)]).to_vec();
+                    v.push((Node::uint(3), Node::tag(24, Node::bytes(&inner))));
                 }
                 Node::map(v)
             }
@@ -748,7 +758,7 @@ pub fn language_views(langs: &[u8], v2_model: bool) -> Vec<u8> {
     for lang in [1u8, 2] {
         if langs.contains(&lang) {
             if lang == 1 && v2_model {
-                // base B4 (Babbage, slot in the PlutusV2 epochs): the mainnet V2 model
+                // base B3v2 (Babbage, slot in the PlutusV2 epochs): the mainnet V2 model
                 entries.push((Node::uint(1), Node::array(params::PLUTUS_V2_COST_MODEL.iter().map(|c| Node::int(*c as i128)).collect())));
                 continue;
             }
@@ -764,14 +774,15 @@ pub fn language_views(langs: &[u8], v2_model: bool) -> Vec<u8> {
     Node::map(entries).to_vec()
 }
 
-/// Does the validator of `era` at `slot` (mainnet) know the PlutusV2 cost model of
+/// Does the validator of `era` at `slot` (mainnet; Conway: the parameters in force at `slot`,
+/// `params::multi_era_at`) know the PlutusV2 cost model of
 /// [`params::PLUTUS_V2_COST_MODEL`]?
 pub fn v2_model_at(era: Era, slot: u64) -> bool {
-    era == Era::Babbage && slot >= params::V2_MODEL_FROM_SLOT
+    (era == Era::Babbage || era == Era::Conway) && slot >= params::V2_MODEL_FROM_SLOT
 }
 
 /// Ledger formula: Blake2b-256(redeemer bytes ++ datum bytes (if any) ++ language views).
-pub fn script_integrity_hash(era: Era, slot: u64, wits: &Wits) -> Option<[u8; 32]> {
+pub fn script_integrity_hash(era: Era, slot: u64, wits: &Wits, ref_langs: &[u8]) -> Option<[u8; 32]> {
     let r = wits.redeemers_node();
     let d = wits.datums_node();
     if r.is_none() && d.is_none() {
@@ -794,6 +805,12 @@ pub fn script_integrity_hash(era: Era, slot: u64, wits: &Wits) -> Option<[u8; 32
         }
         if wits.plutus_v2.as_ref().map(|v| !v.is_empty()).unwrap_or(false) {
             langs.push(1u8);
+        }
+        // languages of the reference scripts on the reference inputs
+        for l in ref_langs {
+            if !langs.contains(l) {
+                langs.push(*l);
+            }
         }
     }
     p.extend(language_views(&langs, v2_model_at(era, slot)));
@@ -857,7 +874,13 @@ fn body_node(case: &Case, fee: u64, change: u64, total_coll: u64) -> Node {
     match t.script_data_hash {
         HashSpec::Absent => {}
         HashSpec::Right => {
-            if let Some(h) = script_integrity_hash(case.era, case.env.slot, &t.wits) {
+            let ref_langs: Vec<u8> = t
+                .reference_inputs
+                .iter()
+                .flatten()
+                .filter_map(|i| case.env.get(i).and_then(|u| u.out.script_ref.as_ref().map(|(tag, _)| tag - 1)))
+                .collect();
+            if let Some(h) = script_integrity_hash(case.era, case.env.slot, &t.wits, &ref_langs) {
                 m.push((Node::uint(11), Node::bytes(&h)));
             }
         }
